@@ -102,4 +102,13 @@ def extra_checks(tier, seed, active_known):
 		x.violation = {'what': f'{f0["blocks"]} sibling {f0["shape"]} blocks declare {f0["expected"] - 1} variables but only {f0["declared_vars"] - 1} are collected (a scope id is a textual prefix of another: {f0["names"]})',
 			'function': 'rogw/tranp/syntax/node/definition/statement_compound.py:VarsCollector._merged', 'inputs': f0, 'clause': 'decl_vars covers every sibling block'}
 		x.finding_key = 'scope-prefix'
-	return [x]
+	from twins import rename_twin
+	n2, fails2 = rename_twin.run(tier)
+	y = Extra(name='node tree commutes with consistent renaming of user identifiers (node classes, declared variables, closure captures)', kind='bounded', ok=not fails2, cases=n2,
+		bound='4 snippets (closure, classes with a user base, enum, nested loops/comprehension) x 5 injective renamings (one-letter, ...Enum suffix, prefix chains, double-underscore fragments, permuted spellings)',
+		detail=f'{len(fails2)} differences', samples=[{'snippet': 'closure', 'renaming': {'count': 'l', 'calc': 'k'}, 'verdict': 'captures renamed consistently'}])
+	y.distinct = n2
+	if fails2:
+		y.violation = {'what': fails2[0]['what'], 'function': 'rogw/tranp/syntax/node/definition', 'inputs': fails2[0], 'clause': 'nodes(r(P)) == r(nodes(P))'}
+		y.finding_key = 'rename-twin'
+	return [x, y]
